@@ -82,8 +82,14 @@ def specifier_table(zone_info, start_year, until_year, **opts):
     out = []
     for y in range(start_year, until_year):
         zs.init_for_year(y)
-        y0 = calendar.timegm((y, 1, 1, 0, 0, 0)) - 946684800
-        y1 = calendar.timegm((y + 1, 1, 1, 0, 0, 0)) - 946684800
+        # instants served from the table of year y: the UTC year, except that with a window shorter than 14 months
+        # ZoneSpecifier._init_for_second() serves Jan 1 (UTC) from the previous year's table
+        d0 = 2 if opts.get('viewing_months', 14) < 14 else 1
+        y0 = calendar.timegm((y, 1, d0, 0, 0, 0)) - 946684800
+        y1 = calendar.timegm((y + 1, 1, d0, 0, 0, 0)) - 946684800
+        if d0 == 2 and y == start_year:
+            y0 = calendar.timegm((y, 1, 1, 0, 0, 0)) - 946684800    # the first day is only reachable through year y-1; judged from Jan 2
+            y0 += 86400
         trs = zs.transitions
         cur = None
         for t in trs:
